@@ -48,6 +48,14 @@ CHECKS = {
   text="Theorems in coq/Props/C07.v: (1) the event-driven emitter with its state stack writes exactly the recursive rendering, for trees of every depth/shape and every indent/ensure_ascii option (induction over trees, generalised over the stack, in continuation style); (2) that rendering belongs to the RFC 8259 grammar of Model/Json.v and denotes the tree's JSON projection (so the dump is strict JSON with the same content under every option); (3) every string is written as a valid literal denoting exactly itself, incl. controls, non-BMP (surrogate pairs, arithmetic proved) and lone surrogates; (4) default output is the whitespace-free compact rendering, string literals ASCII-only under ensure_ascii, non-ASCII left unescaped otherwise; (5) int/finite-float images of the representer lie inside the JSON number language (regex certificate).",
   note="Trusted: Coq kernel + vm_compute; Model/JsonEmit.v tied to Dumper.emit_json by EXHAUSTIVE small trees (<= 4 nodes quick, <= 6 thorough) x 10 indents x 2 ensure_ascii plus string/number pools (44k cases quick), comparing the implementation's text with BOTH the Coq state machine and the Coq printer; Python's strict json.loads judges every text. repr(float)/str(int) images are a model (each number text seen is checked). Load-back clause: by the tie of C05.",
   technique='Coq proof: simulation of a pushdown emitter by a recursive printer + membership in an inductive RFC 8259 grammar; vm_compute differential correspondence', design='6 C07'),
+ 'C06': dict(
+  text="Theorems in coq/Props/C06.v: (1) C06_tag_free: for values of every size and shape the tree the representers build carries no explicit tag under the serializer's implicit rule over the GENERATED dumper resolver table -- integer texts for integers of every size (z_to_dec_image + certificate), float/date/datetime texts by regular-language image certificates covering strings of every length, str scalars and default collection tags; (2) C06_reparse_identity + C06_faithful: written with any quoting decisions and read by a plain parser (PyYAML's table, proved equal to the dumper's) the tree denotes the object's projection: constructor parameters in declaration order then extras, enum members by name, string-likes/paths by str(), list/dict order kept; (3) C06_only_sweeteners_alter: the attribute mapping is altered only by the class's own sweeten chain. Purity and determinism are NOT claimed from the functional model: observed (deep snapshot before/after, double dump, fresh dump function).",
+  note="Trusted: Coq kernel + vm_compute; Model/Represent.v tied to yatiml's Representer/Dumper on generated class models (hierarchies incl. inherited non-idempotent sweeteners, str+Enum mix-ins, _yatiml_extra, real defaults, remove_attributes_with_default_values) x values from adversarial pools (960 quick / 24k thorough) comparing node trees; the TEXT is judged directly: yaml.parse event stream has no explicit tag and one document, yaml.safe_load(text) equals the projection. leaves_ok (float/date texts in the modelled languages; PyYAML reads each leaf back) is evaluated on every case. The emitter's quoting is PyYAML's (abstracted as plain_ok, any function).",
+  technique='Coq proof: induction over values + regular-language image certificates over the regenerated resolver table; vm_compute differential correspondence', design='6 C06'),
+ 'C05': dict(
+  text="Theorems in coq/Props/C05.v: (1) C05_str_stays_str: every valid string (any length) that the dumper's resolver table regards as str -- and may hence be written unquoted -- is resolved to str by yatiml's loader table (cross-table certificate over BOTH generated tables; this is the theorem that failed before fix 2c35a4a with witness 1e5); (2) C05_int/float/date_texts: the texts the representers write for ints of every size, floats incl. non-finite, dates, datetimes are resolved by the loader to the same tag (image certificates); (3) C05_reparse_identity: composing the dumped text gives back exactly the represented tree for values of every size/shape and for EVERY quoting decision of the emitter; (4) C05_roundtrip_partial: hence load(text) = load(represented tree). The remaining structural step load(represent v) = v for unambiguous class-typed values is NOT proved (stated as missing in the file); it is covered by the tie.",
+  note="Trusted: Coq kernel + vm_compute. Tie: generated class models x values (889 quick / ~20k thorough) incl. every pool string alone/in a list/as key+value: load(dumps(v)) judged by structural equality (classes, attribute values, list and mapping order; dict/OrderedDict identified); values that an independent over-approximation of the documented recognition rules (required-key sets) cannot tell from another registered class are skipped and counted; the load model is evaluated in Coq on each composed dump via a sentinel-default twin of the class model and compared with the implementation. Search: witness strings of failed certificates replayed as load(dumps(s)).",
+  technique='Coq proof: regular-language certificates across two regenerated resolver tables + induction over values; vm_compute differential correspondence', design='6 C05'),
 }
 
 REASON_TODO = 'check not built yet (work in progress; DESIGN.md section 11 gives the build order)'
